@@ -38,9 +38,11 @@ uint64_t g_countdown = 0;
 size_t g_replay_pos = 0;
 // No std:: containers here: their template code would be shared (ODR) with instrumented
 // translation units and re-enter the edge callback from inside the scheduler.
-Switch* g_taken = nullptr;
+// ... and no malloc/realloc either: the sanitizers intercept them, and ThreadSanitizer would see the
+// scheduler's own bookkeeping as unsynchronised heap writes of the simulated threads.
+constexpr size_t MAX_TAKEN = size_t(1) << 20;
+Switch g_taken[MAX_TAKEN];
 size_t g_ntaken = 0;
-size_t g_cap_taken = 0;
 uint64_t g_pct_points[16];
 size_t g_npct = 0;
 size_t g_pct_pos = 0;
@@ -235,13 +237,9 @@ int decide(int me, int kind) {
 }
 
 void record(uint64_t idx, int t) {
-    if (g_ntaken == g_cap_taken) {
-        g_cap_taken = g_cap_taken ? g_cap_taken * 2 : 1024;
-        g_taken = static_cast<Switch*>(realloc(g_taken, g_cap_taken * sizeof(Switch)));
-        if (!g_taken) {
-            say("SIM-STUCK out of memory in scheduler\n");
-            _exit(3);
-        }
+    if (g_ntaken >= MAX_TAKEN) {
+        say("SIM-STUCK more than 2^20 switches in one run\n");
+        _exit(3);
     }
     g_taken[g_ntaken++] = Switch{idx, t};
     g_stats.sched_hash = (g_stats.sched_hash ^ (idx * 0x100000001B3ull + uint64_t(t + 1))) * 0x9E3779B97F4A7C15ull;
